@@ -301,6 +301,10 @@ func newLiveEnv() *liveEnv {
 		w.Header().Set("Content-Type", req.Header.Get("Content-Type"))
 		w.WriteHeader(200)
 		_, _ = w.Write(h.Frame(0, []byte("ok")))
+		if k, _ := strconv.Atoi(req.Header.Get("X-Extra-Bytes")); k > 0 {
+			// ... and the first k bytes of the next envelope (its 5-byte prefix, then payload)
+			_, _ = w.Write(h.Frame(0, []byte("second message"))[:k])
+		}
 		if f, ok := w.(http.Flusher); ok {
 			f.Flush()
 		}
@@ -1223,6 +1227,21 @@ func liveFamily(r *h.Run, rng *h.Rng, fam string, cancelMode bool) {
 			}
 		}
 	}
+	// a server stream: one message has arrived, and 0..8 bytes of the next envelope, when the
+	// context ends with Receive blocked
+	for pi, proto := range protos {
+		for _, h2 := range []bool{false, true} {
+			if proto == "grpc" && !h2 {
+				continue
+			}
+			for k := 0; k <= 8; k++ {
+				if !r.Thorough() && k > 5 && (k+pi)%2 == 0 {
+					continue
+				}
+				e.liveStallInEnvelope(r, fam, proto, h2, k, (k+pi)%2 == 0)
+			}
+		}
+	}
 	// a handler that returns the error of a context of its own
 	for _, proto := range protos {
 		for _, h2 := range []bool{false, true} {
@@ -1304,6 +1323,63 @@ func (e *liveEnv) liveRejected(r *h.Run, fam, kind, proto string, h2 bool) {
 	}
 	r.Sample(fam, c.input())
 	c.afterCall(true)
+}
+
+// liveStallInEnvelope: a server-streaming call; the peer has sent one message and k bytes of the
+// next envelope (inside its 5-byte prefix for k < 5, inside its payload beyond) and stalls; the
+// context ends while Receive is blocked there.
+func (e *liveEnv) liveStallInEnvelope(r *h.Run, fam, proto string, h2 bool, k int, deadline bool) {
+	srv := e.srv1
+	if h2 {
+		srv = e.srv2
+	}
+	c := &liveCall{r: r, mode: "C15", fam: fam, kind: "server", proto: proto, h2: h2, prog: hprog{WaitCtx: true}}
+	c.id = fmt.Sprint(e.seq.Add(1))
+	c.obs = e.get(c.id)
+	c.cc = &countingClient{inner: srv.Client()}
+	client := connect.NewClient[h.Raw, h.Raw](c.cc, srv.URL+"/verif.Svc/StallAfterMessage", liveClientOpts(proto)...)
+	want := connect.CodeCanceled.String()
+	var ctx context.Context
+	var cancel context.CancelFunc
+	if deadline {
+		want = connect.CodeDeadlineExceeded.String()
+		ctx, cancel = context.WithTimeout(context.Background(), 250*time.Millisecond)
+	} else {
+		ctx, cancel = context.WithCancel(context.Background())
+		time.AfterFunc(250*time.Millisecond, cancel)
+	}
+	defer cancel()
+	r.Eval(fam, fmt.Sprintf("stall-in-envelope/%s/%v/%d/%v", proto, h2, k, deadline))
+	c.log = append(c.log, fmt.Sprintf("[the peer sends one message and %d byte(s) of the next envelope, then stalls; the context ends (%s) while Receive is blocked]", k, want))
+	req := connect.NewRequest(bigMsg(16))
+	req.Header().Set("X-Call", c.id)
+	req.Header().Set("X-Extra-Bytes", fmt.Sprint(k))
+	var st *connect.ServerStreamForClient[h.Raw]
+	if err, ok := c.step("CallServerStream", func() error { var err error; st, err = client.CallServerStream(ctx, req); return err }); !ok || err != nil {
+		return
+	}
+	first := false
+	if _, ok := c.step("Receive", func() error { first = st.Receive(); return st.Err() }); !ok {
+		return
+	}
+	if !first {
+		r.Sample(fam, c.input())
+		return // (the first message did not arrive before the context ended: nothing to judge here)
+	}
+	err, ok := c.step("Receive", func() error {
+		if st.Receive() {
+			return nil
+		}
+		return st.Err()
+	})
+	if !ok {
+		return
+	}
+	if got := liveCls(err); got != want {
+		c.r.Fail(h.Failure{Key: "cancel/code/Receive", Family: fam, What: "a Receive blocked inside the next envelope when the context ended returned " + got, Input: c.input(), Expected: want, Actual: got})
+	}
+	c.step("Close", func() error { return st.Close() })
+	r.Sample(fam, c.input())
 }
 
 // liveUnaryStall: a unary call whose response message has arrived; the context ends while the
